@@ -158,5 +158,5 @@ def valid(case):
 
 
 def phases(tier):
-    n = {"quick": 16 * 1500, "thorough": 16 * 20000}[tier]
+    n = {"quick": 16 * 1200, "thorough": 16 * 20000}[tier]
     return [dict(name="main", kind="hypothesis", strategy=cases(tier), check=check, examples=n)]
